@@ -966,7 +966,7 @@ def _get_all_by_filters_from_db(context, filters):
         parent_rp.c.uuid.label("parent_provider_uuid"),
     ).select_from(rp_to_parent)
 
-    if name:
+    if name is not None:
         query = query.where(rp.c.name == name)
     if uuid:
         query = query.where(rp.c.uuid == uuid)
